@@ -120,6 +120,22 @@ def _cmp(a, b, rtol):
     return err <= rtol * sc + 1e-13, f"max|diff| = {err:.3e} (scale {sc:.3e})"
 
 
+def _zero_cols(rng, case, seeds):
+    """components with per-mode / per-column caches (sparse EigenSolve): seeds with all-zero columns, differently in every pass"""
+    if not getattr(case, "warm_full", False):
+        return seeds
+    out = []
+    for w in seeds:
+        if isinstance(w, np.ndarray) and w.ndim == 2 and w.shape[1] > 1 and rng.random() < 0.8:
+            w = w.copy()
+            keep = rng.random(w.shape[1]) < 0.5
+            if keep.all() or not keep.any():
+                keep[int(rng.integers(0, w.shape[1]))] ^= True
+            w[:, ~keep] = 0
+        out.append(w)
+    return out
+
+
 def history_oracle(case, rng, nhist, rtol=1e-6, points=None):
     """returns None or a failure description. `points`: optional list of input-state lists to visit"""
     pm = _pm()
@@ -156,7 +172,7 @@ def history_oracle(case, rng, nhist, rtol=1e-6, points=None):
             m.response()
             fresh_ok = True
         elif r < 0.8 and fresh_ok:
-            seeds = zoo._make_seeds(rng, m, case, partial=True)
+            seeds = _zero_cols(rng, case, zoo._make_seeds(rng, m, case, partial=True))
             for so, w in zip(m.sig_out, seeds):
                 if w is not None:
                     so.sensitivity = zoo.vcopy(w)
@@ -183,7 +199,7 @@ def history_oracle(case, rng, nhist, rtol=1e-6, points=None):
     npass = int(rng.integers(1, 4))
     all_seeds, hist = [], []
     for k in range(npass):
-        seeds = zoo._make_seeds(rng, m, case, partial=True)
+        seeds = _zero_cols(rng, case, zoo._make_seeds(rng, m, case, partial=True))
         all_seeds.append(seeds)
         for so, w in zip(m.sig_out, seeds):
             if w is not None:
@@ -223,7 +239,12 @@ def history_oracle(case, rng, nhist, rtol=1e-6, points=None):
     return None
 
 
-def gen_linsolve_classchange(rng):
+LINSOLVE_PATTERNS = [["symindef", "general", "general", "spd"], ["general", "general", "general", "general"],
+                     ["spd", "csym", "csym", "general"], ["general", "spd", "general", "symindef"],
+                     ["csym", "general", "csym", "general"], ["spd", "general", "general", "general"]]
+
+
+def gen_linsolve_classchange(rng, pattern=None):
     """LinSolve visiting matrices of different classes (SPD -> indefinite -> non-symmetric -> complex)"""
     pm = _pm()
     n = int(rng.integers(2, 6))
@@ -236,6 +257,8 @@ def gen_linsolve_classchange(rng):
     if rng.random() < 0.7:
         classes[0] = ["spd", "symindef"][int(rng.integers(0, 2))]
         classes[1] = ["general", "csym"][int(rng.integers(0, 2))]
+    if pattern is not None:     # (consecutive DIFFERENT matrices of one class: what is cached per class must follow the matrix)
+        classes = list(pattern)
     shp = (n,) if k is None else (n, k)
     for c in classes[:4]:
         cplx = c == "csym"
@@ -405,8 +428,9 @@ def correspondence(ctx):
     # ---- library modules: history vs fresh instance (property oracle on the real code) -------------
     fams = list(zoo.GENERATORS)
     per = 4 if ctx.quick else 14
+    PER_FAM = {"eigensolve_sparse": 3}      # per-mode adjoint solver caches: more histories
     for fam in fams:
-        for _ in range(per):
+        for _ in range(per * PER_FAM.get(fam, 1)):
             case = zoo.GENERATORS[fam](nprng)
             if fam == "aggregation" and "sc" in case.name.split(".")[-1]:
                 pass  # undamped or damped: damped is exempt -> regenerate without damping below
@@ -421,8 +445,8 @@ def correspondence(ctx):
                 ctx.oracle_fail(r[1], {"family": fam, "case": case.name})
             else:
                 ctx.distinct.add(("lib", case.name))
-    for _ in range(12 if ctx.quick else 80):
-        case, pts = gen_linsolve_classchange(nprng)
+    for t in range(14 if ctx.quick else 80):
+        case, pts = gen_linsolve_classchange(nprng, LINSOLVE_PATTERNS[t % 12] if t % 12 < len(LINSOLVE_PATTERNS) else None)
         r = call_impl(history_oracle, case, nprng, int(nprng.integers(8, 24)), 1e-6, pts)
         ctx.evaluations += 1
         ctx.branch("lib.linsolve-classchange")
@@ -493,6 +517,8 @@ def search(ctx, disagreements):
         for _ in range(6):
             case = zoo.GENERATORS[fam](rng)
             r = call_impl(history_oracle, case, rng, 20)
+            if r[0] == "err" and zoo.numerical_limit(fam, r[2]):
+                continue
             if r[0] == "err":
                 found.append({"what": f"{case.name}: history raised {r[2][:300]}", "witness": {"family": fam, "case": case.name}})
             elif r[1]:
